@@ -117,6 +117,7 @@ type Sim struct {
 
 	Tape     *tape.Tape
 	Steps    int
+	resumes  int
 	MaxSteps int
 	// StickNum/StickDen: probability of staying on the last-run task when it is
 	// still runnable (0 => uniform choice).
@@ -690,12 +691,17 @@ func (s *Sim) Wait() Result {
 			s.teardown()
 			return Result{Kind: EndDeadlock, Detail: d}
 		}
-		if s.Steps >= s.MaxSteps {
+		if s.resumes >= s.MaxSteps {
 			d := s.describe()
 			s.teardown()
 			return Result{Kind: EndSteps, Detail: d}
 		}
-		s.Steps++
+		s.resumes++
+		if len(runnable) > 1 {
+			// Steps counts decisions; single-candidate resumes depend on whether a
+			// yield took its fast path, which is timing dependent and irrelevant
+			s.Steps++
+		}
 		sort.Slice(runnable, func(i, j int) bool { return runnable[i].ID < runnable[j].ID })
 		// put the last-run task first so that choice 0 means "continue"
 		for i, t := range runnable {
